@@ -52,7 +52,11 @@ type heldSession struct {
 }
 
 func startHeld(addr, user, job, cmd string) (*heldSession, error) {
-	cl, err := dial(addr, user, ssh.Password(job))
+	return startHeldAuth(addr, user, ssh.Password(job), cmd)
+}
+
+func startHeldAuth(addr, user string, auth ssh.AuthMethod, cmd string) (*heldSession, error) {
+	cl, err := dial(addr, user, auth)
 	if err != nil {
 		return nil, err
 	}
@@ -257,13 +261,93 @@ func c13nRun(c *core.Ctx, cs c13nCase) string {
 	return ""
 }
 
+// descriptorsWithPrefix counts the descriptors of this process whose target starts with path (a removed file shows
+// as "path (deleted)").
+func descriptorsWithPrefix(path string) int {
+	n := 0
+	ents, _ := os.ReadDir("/proc/self/fd")
+	for _, e := range ents {
+		if l, err := os.Readlink("/proc/self/fd/" + e.Name()); err == nil && strings.HasPrefix(l, path) {
+			n++
+		}
+	}
+	return n
+}
+
+// c13nLastConnection: histories around the moment the server's LAST connection goes away while its read is still
+// winding down.  Tail limit 1.  Session A follows a.log; ("removed") a.log is removed, so that A's reader ends up in
+// its pause before re-opening, or ("plain") nothing happens; A's connection is closed abruptly; B follows b.log at
+// once; a few seconds later C follows c.log.  Observed from outside (descriptors on the files): b.log and c.log are
+// never read at the same time; and C's read starts once B has gone.
+func c13nLastConnection(c *core.Ctx, kind string) string {
+	Setup()
+	dir := fmt.Sprintf("%s/c13n-last-%s", core.Scratch(), kind)
+	os.RemoveAll(dir)
+	os.MkdirAll(dir, 0o755)
+	config.Server.MaxConcurrentCats, config.Server.MaxConcurrentTails = 1, 1
+	config.Server.SSHBindAddress = "127.0.0.1"
+	WriteAuthorizedKeys("alice", Keys[0].Line+"\n")
+	ts := StartServer(20)
+	defer ts.Stop()
+	auth := ssh.PublicKeys(Keys[0].Signer)
+	fa, fb, fc := dir+"/a.log", dir+"/b.log", dir+"/c.log"
+	for _, f := range []string{fa, fb, fc} {
+		os.WriteFile(f, []byte("x\n"), 0o644)
+	}
+	a, err := startHeldAuth(ts.Addr, "alice", auth, "tail "+fa+" regex:noop ")
+	if err != nil {
+		return "harness: session A: " + err.Error()
+	}
+	if !WaitFor(30*time.Second, func() bool { return openDescriptors(fa) > 0 }) {
+		a.close()
+		return "harness: the follow of a.log did not start within 30 s"
+	}
+	if kind == "removed" {
+		os.Remove(fa)
+		// the follower notices at its next periodic check (3 s), closes the file and pauses before it re-opens
+		if !WaitFor(30*time.Second, func() bool { return descriptorsWithPrefix(fa) == 0 }) {
+			a.close()
+			return "harness: the follower of the removed file did not let go of it within 30 s"
+		}
+	}
+	a.close() // the server's only connection goes away
+	b, err := startHeldAuth(ts.Addr, "alice", auth, "tail "+fb+" regex:noop ")
+	if err != nil {
+		return "harness: session B: " + err.Error()
+	}
+	defer func() {
+		if b != nil {
+			b.close()
+		}
+	}()
+	if !WaitFor(60*time.Second, func() bool { return openDescriptors(fb) > 0 }) {
+		return "the follow of b.log did not start within 60 s although the only other session had ended (its slot was not given back)"
+	}
+	time.Sleep(3 * time.Second) // A's reader (pause of 2 s, poll of 100 ms) has noticed the end of its session by now
+	cs, err := startHeldAuth(ts.Addr, "alice", auth, "tail "+fc+" regex:noop ")
+	if err != nil {
+		return "harness: session C: " + err.Error()
+	}
+	defer cs.close()
+	// positive polling for the violation, 5 s
+	if WaitFor(5*time.Second, func() bool { return openDescriptors(fb) > 0 && openDescriptors(fc) > 0 }) {
+		return fmt.Sprintf("tail limit 1: after the server's last connection (a follow of a file that was %s) was closed, session B follows b.log and session C follows c.log AT THE SAME TIME: 2 concurrent reads, limit 1", map[string]string{"removed": "removed", "plain": "still there"}[kind])
+	}
+	b.close()
+	b = nil
+	if !WaitFor(60*time.Second, func() bool { return openDescriptors(fc) > 0 }) {
+		return "the follow of c.log did not start within 60 s after the running follow ended and freed the slot"
+	}
+	return ""
+}
+
 func init() {
 	core.Register(&core.Check{
 		ID:       "C13N",
 		ReportAs: "C13",
 		Level:    "exploration",
 		Rule: "native part: a real in-process server with limit 1 and 2; sessions of the background users over real SSH hold every slot (cat of a FIFO nobody writes to / tail of a regular file); then the real scheduled-job and continuous-job runner functions are " +
-			"called as their timers do; observed from outside the code (FIFO has a reader / the process holds a descriptor on the file): the job's file is not read while all slots are held, and is read once one holder finishes; the scheduled job then completes and writes its outfile",
+			"called as their timers do; observed from outside the code (FIFO has a reader / the process holds a descriptor on the file): the job's file is not read while all slots are held, and is read once one holder finishes; the scheduled job then completes and writes its outfile; plus two histories around the server's LAST connection going away while its read is still winding down (a follow of a file that was removed - the reader sits in its pause before re-opening - or of a file that is still there): the connection is closed, a second session follows another file at once and a third one three seconds later: the two files are never read at the same time (tail limit 1) and the third read starts once the second has gone",
 		Assumptions: []string{"the job runner functions are called directly instead of waiting for the 2 s / 1 min timers of the scheduler loop"},
 		Serial:      true,
 		QuickBudget: 300 * time.Second,
@@ -285,6 +369,21 @@ func init() {
 						}
 						c.Violation(sig, v, cs)
 					}
+				}
+			}
+			for _, kind := range []string{"removed", "plain"} {
+				c.Count("last-connection|" + kind)
+				v := c13nLastConnection(c, kind)
+				if strings.HasPrefix(v, "harness:") {
+					c.Res.HarnessErr = v
+					return
+				}
+				if v != "" {
+					sig := "slot-of-a-running-read-taken-away"
+					if !strings.Contains(v, "AT THE SAME TIME") {
+						sig = "slot-not-given-back-after-the-last-connection"
+					}
+					c.Violation(sig, v, map[string]string{"history": "last connection closes (" + kind + "), then B, then C"})
 				}
 			}
 			c.Sample(c13nCase{"scheduled", 1})
